@@ -10,6 +10,7 @@ import Driver.C31
 import Driver.C37
 import Driver.C12
 import Driver.C14
+import Driver.C15
 open Mitum Mitum.Driver
 
 def step (line : String) : String :=
@@ -20,6 +21,7 @@ def step (line : String) : String :=
   | "C07" :: ts => stepC07 ts
   | "C12" :: ts => stepC12 ts
   | "C14" :: ts => stepC14 ts
+  | "C15" :: ts => stepC15 ts
   | "C22" :: ts => stepC22 ts
   | "C23" :: ts => stepC23 ts
   | "C24" :: ts => stepC24 ts
